@@ -62,6 +62,8 @@ where
     sync_word: u16,
     cold_start: bool,
     calibrate_image: bool,
+    /// A payload has been handed to the chip by `prepare_for_tx` and not been transmitted yet
+    tx_prepared: bool,
 }
 
 impl<RK, DLY> LoRa<RK, DLY>
@@ -84,6 +86,7 @@ where
             sync_word,
             cold_start: true,
             calibrate_image: true,
+            tx_prepared: false,
         };
         lora.init().await?;
 
@@ -281,6 +284,7 @@ where
         self.radio_kind.set_payload(buffer).await?;
         self.radio_mode = RadioMode::Transmit;
         self.radio_kind.set_irq_params(Some(self.radio_mode)).await?;
+        self.tx_prepared = true;
         Ok(())
     }
 
@@ -290,7 +294,9 @@ where
     /// This function is not safe to drop or cancel, as it calls `process_irq_event`, which must run to completion to avoid radio lockups.
     /// Do not call this function within a select branch or in any context where it may be prematurely canceled.
     pub async fn tx(&mut self) -> Result<(), RadioError> {
-        if let RadioMode::Transmit = self.radio_mode {
+        // Transmit is also the mode continuous_wave() leaves: only a prepared payload may be sent
+        if self.radio_mode == RadioMode::Transmit && self.tx_prepared {
+            self.tx_prepared = false;
             let result = self.do_tx().await;
             self.standby_on_error(result).await
         } else {
@@ -589,6 +595,7 @@ where
     }
 
     async fn prepare_modem(&mut self, frequency_in_hz: u32) -> Result<(), RadioError> {
+        self.tx_prepared = false;
         self.radio_kind.ensure_ready(self.radio_mode).await?;
         if self.radio_mode != RadioMode::Standby {
             self.radio_kind.set_standby().await?;
